@@ -129,6 +129,8 @@ class Sim:
             for a in op.get("a", []) + [op["t"]]:
                 if isinstance(a, dict) and "ref" in a:
                     self.tainted.add(a["ref"])
+        if (op.get("f") or "").startswith("F1.") and out[0] == "exc":
+            self.fired(op["f"])  # a call the library had to refuse, and did
         self.pool[i] = out
         self.ops.append(op)
         if out[0] == "ok":
